@@ -13,6 +13,9 @@ def tyOf (s : String) : Option IntTy :=
   | "i16" => some ⟨16, true⟩ | "u16" => some ⟨16, false⟩
   | "i32" => some ⟨32, true⟩ | "u32" => some ⟨32, false⟩
   | "i64" | "ill" => some ⟨64, true⟩ | "u64" | "ull" => some ⟨64, false⟩
+  -- character types (integral, not bool): plain `char` and `wchar_t` are signed on the harness platform
+  | "c8" => some ⟨8, true⟩ | "c8u" => some ⟨8, false⟩ | "c16" => some ⟨16, false⟩
+  | "c32" => some ⟨32, false⟩ | "wc" => some ⟨32, true⟩
   | _ => none
 
 def fnTy (s : String) : Option IntTy :=
@@ -123,6 +126,14 @@ def step (_ : Unit) (l : Line) : Unit × String :=
     | some t, some s, some b, some ws =>
       out (fmtE fmtTI (toInteger t (ws != 0) s b)) (fmtPTI (Spec.parse t (ws != 0) s b.toNat))
     | _, _, _, _ => bad
+  | "to_integer_nc" =>
+    -- check_overflow = false: a value that is not representable is outside the option's contract (`*`);
+    -- the model still says what the code does there (wrap-around), which the correspondence run compares
+    match ty, l.natList? "s", l.int? "base", l.nat? "ws" with
+    | some t, some s, some b, some ws =>
+      let sp := Spec.parse t (ws != 0) s b.toNat
+      out (fmtE fmtTI (toIntegerNC t (ws != 0) s b)) (match sp with | .range _ => "*" | _ => fmtPTI sp)
+    | _, _, _, _ => bad
   | "cstr" =>
     match fnTy fn, l.natList? "s", l.int? "base" with
     | some t, some s, some b =>
@@ -131,7 +142,7 @@ def step (_ : Unit) (l : Line) : Unit × String :=
         out (fmtE toString (ato t s)) (if sp.erange then "*" else toString sp.value)
       else
         let f := fun (r : Int × Nat) => s!"{r.1},{r.2},0"
-        out (fmtE f (strto t (cstrOf s) b)) s!"{sp.value},{sp.endPos},{fmtBool sp.erange}"
+        out (fmtE f (cstrto t s b)) s!"{sp.value},{sp.endPos},{fmtBool sp.erange}"
     | _, _, _ => bad
   | "sto" =>
     match fnTy fn, l.natList? "s", l.int? "base" with
